@@ -37,6 +37,8 @@ func runStatic(prog *Prog, sc StaticCheck) *StaticResult {
 		return runSpawn(prog, sc)
 	case "once-init":
 		return runOnceInit(prog, sc)
+	case "forbid-call":
+		return runForbidCall(prog, sc)
 	case "struct-init":
 		return runStructInit(prog, sc)
 	case "call-order":
@@ -824,5 +826,61 @@ func runStructInit(prog *Prog, sc StaticCheck) *StaticResult {
 		res.Failures = append(res.Failures, fmt.Sprintf("%s allocates no %s (stale)", sc.Args["func"], sc.Args["type"]))
 	}
 	res.Samples = append(res.Samples, map[string]interface{}{"obligation": fmt.Sprintf("%s#every %s literal takes %s", sc.Args["func"], sc.Args["type"], sc.Args["fields"]), "backend": "def-use", "literals": nalloc})
+	return res
+}
+
+// runForbidCall: <func> (and the closures it defines) contains no direct call of any function in <callees>
+// (full names as printed by go/ssa, e.g. "(*encoding/json.Encoder).SetEscapeHTML").
+func runForbidCall(prog *Prog, sc StaticCheck) *StaticResult {
+	res := &StaticResult{Name: sc.Name, Kind: sc.Kind}
+	fn := prog.FindFunc(modPath+"/"+sc.Pkg, sc.Args["func"])
+	if fn == nil {
+		res.Obligations = 1
+		res.Failures = append(res.Failures, "binding: function "+sc.Args["func"]+" not found")
+		return res
+	}
+	bad := map[string]bool{}
+	for _, c := range strings.Split(sc.Args["callees"], ",") {
+		if c = strings.TrimSpace(c); c != "" {
+			bad[c] = true
+		}
+	}
+	must := map[string]bool{}
+	for _, c := range strings.Split(sc.Args["require"], ",") {
+		if c = strings.TrimSpace(c); c != "" {
+			must[c] = false
+		}
+	}
+	res.Obligations++
+	found := ""
+	for _, f := range append([]*ssa.Function{fn}, fn.AnonFuncs...) {
+		for _, b := range f.Blocks {
+			for _, in := range b.Instrs {
+				if ci, ok := in.(ssa.CallInstruction); ok && ci.Common().StaticCallee() != nil {
+					n := ci.Common().StaticCallee().String()
+					if bad[n] {
+						found = fmt.Sprintf("%s calls %s at %s", sc.Args["func"], n, posOf(prog, in.Pos()))
+					}
+					if _, ok := must[n]; ok {
+						must[n] = true
+					}
+				}
+			}
+		}
+	}
+	if found != "" {
+		res.Failures = append(res.Failures, found)
+	} else {
+		res.Discharged++
+	}
+	for n, ok := range must {
+		res.Obligations++
+		if ok {
+			res.Discharged++
+		} else {
+			res.Failures = append(res.Failures, fmt.Sprintf("%s no longer calls %s", sc.Args["func"], n))
+		}
+	}
+	res.Samples = append(res.Samples, map[string]interface{}{"obligation": fmt.Sprintf("%s#calls %s and none of %s", sc.Args["func"], sc.Args["require"], sc.Args["callees"]), "backend": "call scan"})
 	return res
 }
